@@ -15,6 +15,13 @@ void GMGPolar::solve()
 
     LIKWID_START("Solve");
     auto start_solve = std::chrono::high_resolution_clock::now();
+
+    /* The solve timings describe this call only (setup() resets them, too). */
+    t_solve_total                 = 0.0;
+    t_solve_initial_approximation = 0.0;
+    t_solve_multigrid_iterations  = 0.0;
+    t_check_convergence           = 0.0;
+    t_check_exact_error           = 0.0;
     VERIF_EV("SolveEnter", "\"normsSz\":%d,\"errsSz\":%d,\"fgs\":%d", (int)residual_norms_.size(),
              (int)exact_errors_.size(), (int)full_grid_smoothing_);
 
